@@ -17,7 +17,7 @@ RULE = (
     "polynomial and a.(axb), axb+bxa, |axb|^2-|a|^2|b|^2+(a.b)^2 must be the zero polynomial (these paths have "
     "no value-dependent branch, so one evaluation decides the formula for every commutative ring); "
     "(ii) generated vectors over int, Fraction, Decimal, float and the ring type: promotion of mixed "
-    "constructor arguments (user type > Fraction > Decimal > float > int), result type preservation and "
+    "constructor arguments (user type > Fraction > Decimal > float > int; also two Vectors built from one list object that is edited afterwards), result type preservation and "
     "exact equality with independently computed formulas (float: within 4 ulp of the term magnitudes); "
     "(iii) int/float/Fraction vectors of magnitude 1e-6..1e6: |normalized|=1 (1e-12), same direction, length "
     "vs exact sqrt (1e-12 rel), angle in [0,pi] equal to the atan2 reference (1e-7), also after a coordinate of an already measured vector was set with v[i]=x; zero() and unit vectors. "
